@@ -112,7 +112,7 @@ def run(ctx):
 
 
 def replay(ctx, sc):
-    c03.quiet()
+    c03.quiet(ctx)
     s = dict(sc["scenario"])
     scs = [dict(s, w=w, w_type=s.get("w_type") if w == s["w"] else "int") for w in sorted({s["w"], 1200, 3612})]
     traces = [c03.one_run(ctx, x, i, keep_lf=True) for i, x in enumerate(scs)]
